@@ -1714,3 +1714,340 @@ Section ExampleId2.
       rewrite Hsmall. reflexivity.
   Qed.
 End ExampleId2.
+
+(* Part 10: with ANY error model the mapped circuit is a sub-unitary (a contraction:
+   it never increases the norm of a vector); without loss elements it is unitary. *)
+Section Contraction.
+  Open Scope R_scope.
+  Notation Cr := (cplx rops).
+  Notation cmat := (@mat (R * R)).
+  Notation vec := (nat -> R * R).
+
+  Definition vnorm2 (n : nat) (v : vec) : R := sumn rops n (fun k => cnorm2 rops (v k)).
+  (* M v, as the first column of a matrix product *)
+  Definition mvec (n : nat) (M : cmat) (v : vec) : vec := fun i => mmul Cr n M (fun k _ => v k) i 0%nat.
+  Definition contraction (n : nat) (M : cmat) : Prop := forall v, vnorm2 n (mvec n M v) <= vnorm2 n v.
+
+  Lemma vnorm2_ext n v w : (forall k, (k < n)%nat -> v k = w k) -> vnorm2 n v = vnorm2 n w.
+  Proof. intros H. unfold vnorm2. apply sumn_ext. intros k Hk. rewrite H by assumption. reflexivity. Qed.
+
+  Lemma mvec_compat n A B v i : meq n A B -> (i < n)%nat -> mvec n A v i = mvec n B v i.
+  Proof.
+    intros H Hi. unfold mvec. apply (mmul_compat (o:=Cr) n A B _ _ H (meq_refl n _)); lia || assumption.
+  Qed.
+
+  Lemma mvec_mmul n A B v i : (i < n)%nat -> mvec n (mmul Cr n A B) v i = mvec n A (mvec n B v) i.
+  Proof.
+    intros Hi. unfold mvec. rewrite (mmul_assoc (o:=Cr)). reflexivity.
+  Qed.
+
+  Lemma contraction_compat n A B : meq n A B -> contraction n A -> contraction n B.
+  Proof.
+    intros H HA v. rewrite (vnorm2_ext n (mvec n B v) (mvec n A v)); [apply HA|].
+    intros k Hk. symmetry. apply mvec_compat; assumption.
+  Qed.
+
+  Lemma contraction_mmul n A B : contraction n A -> contraction n B -> contraction n (mmul Cr n A B).
+  Proof.
+    intros HA HB v.
+    rewrite (vnorm2_ext n _ (mvec n A (mvec n B v))) by (intros; apply mvec_mmul; assumption).
+    eapply Rle_trans; [apply HA|apply HB].
+  Qed.
+
+  Lemma contraction_tab n A : contraction n A -> contraction n (tab Cr n A).
+  Proof. apply contraction_compat, meq_sym, tab_spec. Qed.
+
+  (* a vector changed in at most two places *)
+  Lemma vnorm2_two n a b (v w : vec) :
+    (a < n)%nat -> (b < n)%nat -> a <> b ->
+    (forall k, (k < n)%nat -> k <> a -> k <> b -> w k = v k) ->
+    cnorm2 rops (w a) + cnorm2 rops (w b) <= cnorm2 rops (v a) + cnorm2 rops (v b) ->
+    vnorm2 n w <= vnorm2 n v.
+  Proof.
+    intros Ha Hb Hab Hout Hle.
+    pose proof (sumn_sub (o:=rops) n (fun k => cnorm2 rops (w k)) (fun k => cnorm2 rops (v k))) as S1.
+    assert (S2 : sumn rops n (fun k => ksub rops (cnorm2 rops (w k)) (cnorm2 rops (v k))) =
+                 kadd rops (ksub rops (cnorm2 rops (w a)) (cnorm2 rops (v a)))
+                           (ksub rops (cnorm2 rops (w b)) (cnorm2 rops (v b)))).
+    { apply (sumn_two (o:=rops) n a b
+               (fun k => ksub rops (cnorm2 rops (w k)) (cnorm2 rops (v k)))); try assumption.
+      intros k Hk H1 H2. rewrite Hout by assumption. simpl. ring. }
+    cbv beta in S1. rewrite S2 in S1. unfold vnorm2. cbn [ksub kadd rops] in S1. lra.
+  Qed.
+
+  Lemma vnorm2_one n a (v w : vec) :
+    (a < n)%nat -> (forall k, (k < n)%nat -> k <> a -> w k = v k) ->
+    cnorm2 rops (w a) <= cnorm2 rops (v a) -> vnorm2 n w <= vnorm2 n v.
+  Proof.
+    intros Ha Hout Hle.
+    pose proof (sumn_sub (o:=rops) n (fun k => cnorm2 rops (w k)) (fun k => cnorm2 rops (v k))) as S1.
+    assert (S2 : sumn rops n (fun k => ksub rops (cnorm2 rops (w k)) (cnorm2 rops (v k))) =
+                 ksub rops (cnorm2 rops (w a)) (cnorm2 rops (v a))).
+    { apply (sumn_single (o:=rops) n a
+               (fun k => ksub rops (cnorm2 rops (w k)) (cnorm2 rops (v k)))); try assumption.
+      intros k Hk H1. rewrite Hout by assumption. simpl. ring. }
+    cbv beta in S1. rewrite S2 in S1. unfold vnorm2. cbn [ksub kadd rops] in S1. lra.
+  Qed.
+
+  (* beam splitter [[c, i s], [i s, c]] with real c, s, c^2 + s^2 = 1, on modes a <> b *)
+  Lemma contraction_bs n a b c s :
+    (a < n)%nat -> (b < n)%nat -> a <> b -> c * c + s * s = 1 ->
+    contraction n (embed2 Cr a b (cre rops c) (kmul Cr (ci rops) (cre rops s))
+                          (kmul Cr (ci rops) (cre rops s)) (cre rops c)).
+  Proof.
+    intros Ha Hb Hab Hcs v. apply (vnorm2_two n a b); try assumption.
+    - intros k Hk H1 H2. unfold mvec. rewrite (mmul_embed2_l (o:=Cr)) by assumption.
+      apply Nat.eqb_neq in H1, H2. rewrite H1, H2. reflexivity.
+    - unfold mvec. rewrite !(mmul_embed2_l (o:=Cr)) by assumption.
+      rewrite Nat.eqb_refl. replace (b =? a)%nat with false by (symmetry; apply Nat.eqb_neq; lia).
+      rewrite Nat.eqb_refl. destruct (v a) as [x1 y1], (v b) as [x2 y2].
+      unfold cre, ci, cnorm2. simpl. unfold cmul, cadd. simpl.
+      assert (Hs : s * s = 1 - c * c) by lra.
+      apply Req_le. ring_simplify. 
+      replace (s ^ 2) with (1 - c ^ 2) by (simpl; lra). ring.
+  Qed.
+
+  (* diagonal factor e with |e| <= 1 on mode a (phase shifter: |e| = 1; loss: e = sqrt(1 - l)) *)
+  Lemma contraction_phase n a e :
+    (a < n)%nat -> cnorm2 rops e <= 1 -> contraction n (phase_mat Cr a e).
+  Proof.
+    intros Ha He v. apply (vnorm2_one n a); try assumption.
+    - intros k Hk H1. unfold mvec. rewrite (mmul_phase_l (o:=Cr)) by assumption.
+      apply Nat.eqb_neq in H1. rewrite H1. reflexivity.
+    - unfold mvec. rewrite (mmul_phase_l (o:=Cr)) by assumption. rewrite Nat.eqb_refl.
+      destruct e as [e1 e2], (v a) as [x y]. unfold cnorm2 in *. simpl in *. unfold cmul. simpl.
+      assert (0 <= x * x + y * y) by nra.
+      replace ((e1 * x - e2 * y) * (e1 * x - e2 * y) + (e1 * y + e2 * x) * (e1 * y + e2 * x))
+        with ((e1 * e1 + e2 * e2) * (x * x + y * y)) by ring.
+      nra.
+  Qed.
+
+  Lemma contraction_mid n : contraction n (mid Cr).
+  Proof.
+    intros v. apply Req_le. apply vnorm2_ext. intros k Hk. unfold mvec.
+    apply (mmul_id_l (o:=Cr)); lia.
+  Qed.
+End Contraction.
+
+Section NoisyMap.
+  Open Scope R_scope.
+  Variables (eps2 prec uprec2 : R) (ints : Z -> nat -> Z) (unif norm : rsrc -> nat -> R).
+  Let E := renv eps2 prec uprec2 ints unif norm.
+  Notation Cr := (cplx rops).
+  Notation cmat := (@mat (R * R)).
+
+  (* what every emitted component satisfies, whatever the error model *)
+  Definition comp_sub (n : nat) (c : Reck.comp (K:=R)) : Prop :=
+    match c with
+    | CBarrier _ => True
+    | CPS m p => (m < n)%nat /\ cnorm2 rops (ph_amp p) = 1
+    | CBS m1 m2 r => (m1 < n)%nat /\ m2 = S m1 /\ (m2 < n)%nat /\ 0 <= r <= 1
+    | CLoss m l => (m < n)%nat /\ 0 <= l <= 1
+    end.
+  Definition not_loss (c : Reck.comp (K:=R)) : Prop := match c with CLoss _ _ => False | _ => True end.
+
+  Lemma cnorm2_mul a b : cnorm2 rops (kmul Cr a b) = cnorm2 rops a * cnorm2 rops b.
+  Proof. destruct a, b. unfold cnorm2. simpl. ring. Qed.
+  Lemma cnorm2_cmul a b : cnorm2 rops (cmul rops a b) = cnorm2 rops a * cnorm2 rops b.
+  Proof. exact (cnorm2_mul a b). Qed.
+  Lemma cnorm2_cis x : cnorm2 rops (cisR x) = 1.
+  Proof. apply (cisR_unit x). Qed.
+  Lemma unit_conj_mul e : cnorm2 rops e = 1 -> kmul Cr (kconj Cr e) e = k1 Cr.
+  Proof. destruct e as [x y]. unfold cnorm2. simpl. intros H. unfold cmul, cconj. simpl. f_equal; [lra|ring]. Qed.
+
+  Lemma bsamp_sq r : 0 <= r <= 1 -> fst (e_bsamp E r) * fst (e_bsamp E r) + snd (e_bsamp E r) * snd (e_bsamp E r) = 1.
+  Proof. intros Hr. simpl. rewrite !sqrt_sqrt by lra. lra. Qed.
+
+  Lemma comp_sub_contraction n c : comp_sub n c -> contraction n (comp_mat rops E c).
+  Proof.
+    destruct c as [ms|m p|m1 m2 r|m l]; simpl comp_sub; intros H.
+    - apply contraction_mid.
+    - destruct H as [Hm Hp]. apply contraction_phase; [assumption|apply Req_le; exact Hp].
+    - destruct H as (H1 & -> & H2 & Hr). apply contraction_bs; try assumption; try lia. apply bsamp_sq. exact Hr.
+    - destruct H as [Hm Hl]. apply contraction_phase; [assumption|].
+      unfold cre, cnorm2. simpl. rewrite sqrt_sqrt by lra. lra.
+  Qed.
+
+  Lemma comp_sub_unitary n c : comp_sub n c -> not_loss c -> unitary Cr n (comp_mat rops E c).
+  Proof.
+    destruct c as [ms|m p|m1 m2 r|m l]; simpl comp_sub; intros H Hn.
+    - apply (unitary_mid (o:=Cr)).
+    - destruct H as [Hm Hp]. apply (unitary_phase (o:=Cr)). apply unit_conj_mul. exact Hp.
+    - destruct H as (H1 & -> & H2 & Hr). pose proof (bsamp_sq r Hr) as Hcs.
+      cbn [comp_mat]. set (c := fst (e_bsamp E r)) in *. set (s := snd (e_bsamp E r)) in *.
+      apply (unitary_embed2 (o:=Cr)); try assumption; try lia;
+        unfold unit2, cre, ci; simpl; unfold cmul, cadd, cconj; simpl;
+        repeat split; f_equal; try ring; try (ring_simplify; nra).
+    - destruct Hn.
+  Qed.
+
+  Lemma compile_from_contraction n spec : forall M,
+    Forall (comp_sub n) spec -> contraction n M -> contraction n (compile_from rops E n M spec).
+  Proof.
+    induction spec as [|c spec IH]; intros M HF HM; [exact HM|].
+    inversion HF; subst. rewrite (compile_from_cons (o:=rops) E). apply IH; [assumption|].
+    apply (contraction_compat n (mmul Cr n (comp_mat rops E c) M)).
+    - apply meq_sym. apply (cstep_spec (o:=rops) E).
+    - apply contraction_mmul; [apply comp_sub_contraction; assumption|exact HM].
+  Qed.
+
+  Lemma compile_from_unitary n spec : forall M,
+    Forall (comp_sub n) spec -> Forall not_loss spec -> unitary Cr n M ->
+    unitary Cr n (compile_from rops E n M spec).
+  Proof.
+    induction spec as [|c spec IH]; intros M HF HN HM; [exact HM|].
+    inversion HF; inversion HN; subst. rewrite (compile_from_cons (o:=rops) E). apply IH; try assumption.
+    apply (unitary_compat (o:=Cr) n (mmul Cr n (comp_mat rops E c) M)).
+    - apply meq_sym. apply (cstep_spec (o:=rops) E).
+    - apply (unitary_mmul (o:=Cr)); [apply comp_sub_unitary; assumption|exact HM].
+  Qed.
+
+  (* ---- every component Reck.map emits satisfies comp_sub ---- *)
+  Lemma program_phase_unit fuel v amp ph p ph' :
+    program_phase rops E fuel v amp ph = Ok (p, ph') -> cnorm2 rops amp = 1 -> cnorm2 rops (ph_amp p) = 1.
+  Proof.
+    unfold program_phase. destruct (dist_value rops E fuel ph) as [[x d]|e]; cbn [bind]; [|discriminate].
+    intros H Ha. injection H as <- _. cbn [ph_amp fst]. first [rewrite cnorm2_mul|rewrite cnorm2_cmul]. rewrite Ha.
+    change (e_cis E x) with (cisR x). rewrite cnorm2_cis. ring.
+  Qed.
+
+  Definition prec_ok (n : nat) (p : Reck.prec (K:=R)) : Prop :=
+    (pr_j p + 2 <= n)%nat /\ cnorm2 rops (ph_amp (pr_theta p)) = 1 /\ cnorm2 rops (ph_amp (pr_phi p)) = 1.
+
+  Lemma program_steps_ok n fuel recs : forall ph ps ph',
+    Forall (fun r => (nr_i r + nr_j r + 2 <= n)%nat) recs ->
+    program_steps rops E fuel recs ph = Ok (ps, ph') -> Forall (prec_ok n) ps.
+  Proof.
+    induction recs as [|r recs IH]; intros ph ps ph' HF H.
+    - simpl in H. injection H as <- _. constructor.
+    - inversion HF as [|? ? Hr HF']; subst. cbn [program_steps] in H.
+      destruct (program_phase rops E fuel (nr_theta r) _ ph) as [[a pa]|e] eqn:Ha; cbn [bind] in H; [|discriminate].
+      destruct (program_phase rops E fuel (nr_phi r) _ (snd (a, pa))) as [[b pb]|e] eqn:Hb; cbn [bind] in H; [|discriminate].
+      destruct (program_steps rops E fuel recs (snd (b, pb))) as [[rest pr]|e] eqn:Hrest; cbn [bind] in H; [|discriminate].
+      injection H as <- _. cbn [fst]. constructor.
+      + unfold prec_ok. cbn [pr_j pr_theta pr_phi]. split; [lia|]. split.
+        * eapply program_phase_unit; [exact Ha|]. first [rewrite cnorm2_mul|rewrite cnorm2_cmul].
+          change (fst (e_cis E (half rops (nr_theta r))), snd (e_cis E (half rops (nr_theta r))))
+            with (cisR (half rops (nr_theta r))). rewrite cnorm2_cis. ring.
+        * eapply program_phase_unit; [exact Hb|]. apply cnorm2_cis.
+      + eapply IH; [exact HF'|exact Hrest].
+  Qed.
+
+  Lemma program_ends_ok fuel ends : forall ph es ph',
+    program_ends rops E fuel ends ph = Ok (es, ph') -> Forall (fun p => cnorm2 rops (ph_amp p) = 1) es.
+  Proof.
+    induction ends as [|a ends IH]; intros ph es ph' H.
+    - simpl in H. injection H as <- _. constructor.
+    - cbn [program_ends] in H.
+      destruct (program_phase rops E fuel a _ ph) as [[p pp]|e] eqn:Hp; cbn [bind] in H; [|discriminate].
+      destruct (program_ends rops E fuel ends (snd (p, pp))) as [[rest pr]|e] eqn:Hrest; cbn [bind] in H; [|discriminate].
+      injection H as <- _. cbn [fst]. constructor.
+      + eapply program_phase_unit; [exact Hp|]. apply cnorm2_cis.
+      + eapply IH. exact Hrest.
+  Qed.
+
+  Lemma in01_R x : in01 rops x = true -> 0 <= x <= 1.
+  Proof. unfold in01. simpl. rewrite andb_true_iff, !rleb_true. tauto. Qed.
+
+  Lemma cell_ok n p r1 r2 l cs :
+    prec_ok n p -> cell rops n p r1 r2 l = Ok cs -> Forall (comp_sub n) cs.
+  Proof.
+    intros (Hj & Ht & Hp) H. unfold cell in H.
+    destruct (in01 rops r1) eqn:H1; cbn [negb] in H; [|discriminate].
+    destruct (in01 rops l) eqn:Hl; cbn [negb] in H; [|discriminate].
+    destruct (in01 rops r2) eqn:H2; cbn [negb] in H; [|discriminate].
+    apply in01_R in H1, Hl, H2. injection H as <-.
+    destruct (kgtb rops l 0);
+      repeat match goal with
+             | |- Forall _ (_ :: _) => apply Forall_cons
+             | |- Forall _ [] => apply Forall_nil
+             | |- Forall _ (_ ++ _) => apply Forall_app; split
+             end; simpl; try exact Logic.I; repeat split; try lia; try assumption; tauto.
+  Qed.
+
+  Lemma build_cells_ok n fuel ps : forall bs ls cs st,
+    Forall (prec_ok n) ps -> build_cells rops E fuel n ps bs ls = Ok (cs, st) -> Forall (comp_sub n) cs.
+  Proof.
+    induction ps as [|p ps IH]; intros bs ls cs st HF H.
+    - simpl in H. injection H as <- _. constructor.
+    - inversion HF as [|? ? Hp HF']; subst. cbn [build_cells] in H.
+      destruct (dist_value rops E fuel bs) as [[r1 b1]|e]; cbn [bind] in H; [|discriminate].
+      destruct (negb (in01 rops (fst (r1, b1)))); [discriminate|].
+      destruct (dist_value rops E fuel (snd (r1, b1))) as [[r2 b2]|e]; cbn [bind] in H; [|discriminate].
+      destruct (dist_value rops E fuel ls) as [[l l1]|e]; cbn [bind] in H; [|discriminate].
+      destruct (cell rops n p (fst (r1, b1)) (fst (r2, b2)) (fst (l, l1))) as [c|e] eqn:Hc; cbn [bind] in H; [|discriminate].
+      destruct (build_cells rops E fuel n ps (snd (r2, b2)) (snd (l, l1))) as [[rest st']|e] eqn:Hrest; cbn [bind] in H; [|discriminate].
+      injection H as <- _. cbn [fst]. apply Forall_app. split.
+      + eapply cell_ok; [exact Hp|exact Hc].
+      + eapply IH; [exact HF'|exact Hrest].
+  Qed.
+
+  Lemma end_spec_ok n es :
+    Forall (fun p => cnorm2 rops (ph_amp p) = 1) es -> Forall (comp_sub n) (end_spec n es).
+  Proof.
+    intros HF. unfold end_spec. apply Forall_forall. intros c Hc.
+    apply in_map_iff in Hc as [[i p] [<- Hip]].
+    pose proof (in_combine_l _ _ _ _ Hip) as Hi. pose proof (in_combine_r _ _ _ _ Hip) as Hp.
+    apply in_seq in Hi. rewrite Forall_forall in HF. simpl. split; [lia|]. apply HF. exact Hp.
+  Qed.
+
+  (* T2 noisy_map_subunitary: for EVERY error model (any distributions, any streams, any seed),
+     every unitary or non-unitary input and every oracle answer: if Reck.map returns a circuit,
+     all its components are well-formed (modes in range, adjacent beam splitters with
+     reflectivity in [0,1], unit-modulus phase amplitudes, loss in [0,1]) and the compiled
+     transformation is a contraction; if no loss element was emitted it is unitary *)
+  Theorem noisy_map_subunitary fuel em n (U : cmat) hin hout seed tok ans endo c em' :
+    reck_map rops E fuel em n U hin hout seed tok ans endo = Ok (c, em') ->
+    c_n c = n /\ Forall (comp_sub n) (c_spec c) /\
+    contraction n (compile rops E n (c_spec c)) /\
+    (Forall not_loss (c_spec c) -> unitary Cr n (compile rops E n (c_spec c))).
+  Proof.
+    unfold reck_map. intros H.
+    destruct (set_random_seed E em seed tok) as [em1|e]; cbn [bind] in H; [|discriminate].
+    destruct (reck_decomposition rops E n (tab Cr n (flip n U)) ans endo) as [dc|e] eqn:Hdc; cbn [bind] in H; [|discriminate].
+    destruct (program_steps rops E fuel (dc_recs dc) (em_phase em1)) as [[ps ph1]|e] eqn:Hps; cbn [bind] in H; [|discriminate].
+    destruct (program_ends rops E fuel (dc_end dc) (snd (ps, ph1))) as [[es ph2]|e] eqn:Hes; cbn [bind] in H; [|discriminate].
+    destruct (build_cells rops E fuel n (fst (ps, ph1)) (em_bs em1) (em_loss em1)) as [[cells st]|e] eqn:Hcells; cbn [bind] in H; [|discriminate].
+    destruct (zip_heralds hin hout) as [hs|e]; cbn [bind] in H; [|discriminate].
+    injection H as <- _. cbn [c_n c_spec fst].
+    assert (Hspec : Forall (comp_sub n) (cells ++ [CBarrier (seq 0 n)] ++ end_spec n es)).
+    { apply Forall_app. split; [|apply Forall_app; split].
+      - eapply build_cells_ok; [|exact Hcells]. cbn [fst].
+        eapply program_steps_ok; [|exact Hps].
+        apply (reck_decomposition_ok (o:=rops)) in Hdc as [-> _]. cbn [dc_recs].
+        apply (decomp_loop_bound (o:=rops)).
+      - repeat constructor.
+      - apply end_spec_ok. eapply program_ends_ok. exact Hes. }
+    split; [reflexivity|]. split; [exact Hspec|]. split.
+    - unfold compile. apply compile_from_contraction; [exact Hspec|apply contraction_mid].
+    - intros Hn. unfold compile. apply compile_from_unitary; [exact Hspec|exact Hn|apply (unitary_mid (o:=Cr))].
+  Qed.
+End NoisyMap.
+
+(* Part 11: Reck.map succeeds with a non-trivial error model (non-vacuity of
+   [noisy_map_subunitary]): one mode, phase offset drawn from TopHat(0, 1). *)
+Section ExampleNoisy.
+  Open Scope R_scope.
+  Notation Cr := (cplx rops).
+  Let E := renv (/ 4) (/ 4) 0 (fun _ k => Z.of_nat k) (fun _ _ => / 2) (fun _ _ => 0).
+  Let em : emodel (K:=R) :=
+    mkEm (mkDobj (DConst (/ 2)) norng) (mkDobj (DConst 0) norng)
+         (mkDobj (DTopHat 0 1) (mkRng (Entropy 7) 3)).
+
+  Theorem example_noisy_map :
+    exists c em', reck_map rops E 5 em 1 (mid Cr) [] [] (SeedInt 11) 0 (fun _ => (0, 0)) (fun _ => 0) = Ok (c, em') /\
+                  d_rng (em_phase em') = mkRng (Seeded 0) 1.
+  Proof.
+    unfold reck_map. cbn [set_random_seed process_random_seed bind em em_bs em_loss em_phase reseed has_rng d_dist fst snd].
+    unfold reck_decomposition.
+    assert (HU : check_unitary rops E 1 (tab Cr 1 (flip 1 (mid Cr))) = true).
+    { apply (check_unitary_exact (/ 4) (/ 4) 0); [lra|].
+      apply unitary_tab, flip_unitary, (unitary_mid (o:=Cr)). }
+    rewrite HU.
+    cbn [negb]. change (reck_steps 1) with (@nil (nat * nat)). cbn [decomp_loop snd fst].
+    replace (check_null rops E 1 (tab Cr 1 (flip 1 (mid Cr)))) with true by reflexivity.
+    cbn [negb bind dc_recs dc_end program_steps seq map program_ends program_phase dist_value d_dist d_rng r_src r_pos
+         build_cells zip_heralds fst snd].
+    eexists. eexists. split; [reflexivity|]. reflexivity.
+  Qed.
+End ExampleNoisy.
